@@ -170,6 +170,25 @@ def audit_cases(A, rng, thorough):
         A("sig.recover", ["%02x" % (27 + odd + 4) + H(r) + H(s_), "", h])
         A("sig.recover_digest", ["%02x" % (27 + odd) + H(r) + H(s_), S.h256(b"", h == "sha256d").hex()])
     A("sig.signed", [H(0), 1, "00", "sha256", 0, "n", "00", "sha256"])
+    # --- the recovered key's FORM follows the recorded marker: both entry points x both markers x both hashes ---
+    for h in ("sha256", "sha256d"):
+        double = h == "sha256d"
+        for c in (0, 1):
+            dk = rng.randrange(1, N)
+            mb = bytes(rng.randrange(256) for _ in range(rng.randrange(0, 50)))
+            dg = S.h256(mb, double)
+            # library-made signatures: exact key bytes are prescribed (message entry and digest entry)
+            A("sig.sign_recover", [H(dk), c, mb.hex(), h, c, mb.hex(), h])
+            A("sig.sign_recover_digest", [H(dk), c, mb.hex(), h, 1 - c, dg.hex()])
+            A("sig.sign_recover_digest", [H(d), c, "", h, c, S.h256(b"", double).hex()])
+            A("sig.sign_recover_digest", [H(dk), c, mb.hex(), h, 0, S.h256(mb + b"!", double).hex()])     # other digest
+            # signatures made elsewhere (Python ECDSA): the form (33 / 65 bytes) is prescribed by the header
+            r, s_, odd = S.sign_msg(dk, mb, double)
+            cb = "%02x" % (27 + odd + 4 * c) + H(r) + H(s_)
+            A("sig.recover", [cb, mb.hex(), h])
+            A("sig.recover_digest", [cb, dg.hex()])
+    A("sig.sign_recover_digest", [H(d), 1, "00", "sha256", 0, "r:00:31"])                               # digest of wrong length
+    A("sig.sign_recover_digest", [H(0), 1, "00", "sha256", 0, "r:00:32"])
     # --- empty inputs, length bands ---
     A("sig.recover", ["", "00", "sha256"])
     A("sig.recover_digest", ["", ""])
